@@ -241,7 +241,7 @@ def contexts_for(tokens, value: int | None = None) -> list[str]:
         if value is not None and 0 <= value < 0x10000:
             ctx.append("rmw")       # unsuffixed read-modify-write operand: width follows the value
     if lexable_in_directive(tokens):
-        ctx += ["dl", "assign", "symbol", "macro", "if", "loop_body", "macro_body_twice", "sparse_loop", "hollow_scopes", "loop_local_constant"]
+        ctx += ["dl", "assign", "symbol", "macro", "if", "loop_body", "macro_body_twice", "sparse_loop", "hollow_scopes", "loop_local_constant", "after_forward_label_argument", "scope_in_loop"]
         if value is not None and -2 <= value <= 6:
             ctx.append("for")       # loop bound: the body is assembled max(0, value) times
         if value is not None and 0 <= value < 0x100:
@@ -273,6 +273,12 @@ def program_for(ctx: str, text: str) -> str:
     if ctx == "sparse_loop":
         # iterations that expand to nothing stand between the ones that use the expression
         return head + f".for zi := 0, 6 {{\n.if zi & 1 {{\n.dl ({text}) + zi\n}}\n}}\n.macro ms(zp) {{\n.dl ({text}) + zp\n}}\nms(7)\n"
+    if ctx == "after_forward_label_argument":
+        # an argument that is a plain expression keeps its value during expansion also when an earlier argument names a label defined later
+        return head + f".macro mf(pl, pp) {{\n.if pp {{\n.db 1\n}} else {{\n.db 0\n}}\n.dl pp\n.dw pl\n}}\nmf(later_q, {text})\nlater_q:\n"
+    if ctx == "scope_in_loop":
+        # a named scope declared in every iteration: its members, read by their qualified names in the body, are the iteration's own
+        return head + f".for zi := 0, 3 {{\n.scope ent {{\nzid = ({text}) + zi\n}}\n.dl ent.zid\n}}\n"
     if ctx == "loop_local_constant":
         # a constant assigned inside a loop body belongs to the iteration, also when an outer constant has the same name
         return head + f"zq := 1\n.for zi := 0, 3 {{\nzq := ({text}) + zi\n.dl zq\n}}\n.dl zq\n.macro mq(zq) {{\n.for zj := 0, 2 {{\nzq := ({text}) + zj\n.dl zq\n}}\n.dl zq\n}}\nmq(7)\n"
@@ -297,6 +303,10 @@ def expected_bytes(ctx: str, v: int) -> bytes:
         return (b"\xc6" + le(v, 1) + b"\x26" + le(v, 1)) if v < 0x100 else (b"\xce" + le(v, 2) + b"\x2e" + le(v, 2))
     if ctx == "sparse_loop":
         return le(v + 1, 3) + le(v + 3, 3) + le(v + 5, 3) + le(v + 7, 3)
+    if ctx == "after_forward_label_argument":
+        return (b"\x01" if v != 0 else b"\x00") + le(v, 3) + le(0x8006, 2)
+    if ctx == "scope_in_loop":
+        return le(v, 3) + le(v + 1, 3) + le(v + 2, 3)
     if ctx == "loop_local_constant":
         return le(v, 3) + le(v + 1, 3) + le(v + 2, 3) + le(1, 3) + le(v, 3) + le(v + 1, 3) + le(7, 3)
     if ctx == "hollow_scopes":
